@@ -276,20 +276,21 @@ CLAIMED["C12"] = dict(
     design_ref="§5 C12", note="Graphs are deduplicated first (two trace_calls of one Python function give equal but distinct definitions).")
 
 CLAIMED["C05"] = dict(
-    technique="correspondence of every real transformation (singly and in pipelines) with the reference evaluator + input snapshots; "
-              "Lean 4 theorems over the heap model of transform mappers (PtProofs/C05.lean) when present in the build",
-    text="Tie: copy mapper, map_and_copy(identity), deduplicate, deduplicate_data_wrappers, eliminate_dead_code, "
-         "materialize_with_mpms, unify_axes_tags, preprocessing for code generation — singly and in seeded pipelines of length <= 4 — "
-         "on generated programs incl. duplicated sub-expressions (non-deduplicated graphs), zeros_like/ones_like dead references, "
-         "multi-output dictionaries, pre-tagged nodes/axes/reductions: same output names, every output keeps shape/dtype/value "
-         "under the reference evaluator (thorough: also generated code); the input graph keeps its reflective structural "
-         "fingerprint (kinds, all fields, tags, edges, bytes of wrapped data) and wrapped buffers are byte-identical and keep "
-         "their writeable flag; deduplicate/eliminate_dead_code/materialize_with_mpms idempotent; materialize_with_mpms and "
-         "unify_axes_tags change nothing but tags (reflective comparison ignoring tags/axes); map_and_copy(identity) returns its "
-         "argument itself. Theorems (heap model: identity transformation returns its argument, transformations only append, "
-         "deduplication is duplicate-free/unfold-preserving/idempotent, node-wise denotation preservation lifts to any DAG): "
-         "listed in the evidence when PtProofs/C05.lean is present; until then the evidence falls back to generic counts. "
-         "Partial: Python-level mutation/aliasing is monitored by snapshots, not modelled.",
+    technique="Lean 4 theorems over the heap model of transform mappers (identity, append-only, dedup, denotation lifting) + the "
+              "model's structural checkers run on the REAL inputs/results + every real transformation vs the reference evaluator",
+    text="Proved (heap model, any WF heap/sharing): copy_identity / map_and_copy_id (identity node function on a duplicate-free "
+         "heap returns the argument itself, heap unchanged); input_heap_prefix (every transformation only appends: input nodes keep "
+         "their data — 'never mutates its input' in the model); transform_preserves_denote (a node function that preserves a local "
+         "denotation lifts to the whole DAG for any sharing: carries dead-code elimination, tag-only transformations, lowering); "
+         "tag_transform_same_up_to_tags; dedup_unfold (same unfolded tree), dedup_dupFree, dedup_idem, dedup_of_dupFree. Tie: copy "
+         "mapper, map_and_copy(identity), deduplicate, deduplicate_data_wrappers, eliminate_dead_code, materialize_with_mpms, "
+         "unify_axes_tags, preprocessing — singly and in seeded pipelines <= 4 — on generated programs incl. non-deduplicated "
+         "graphs, dead zeros_like/ones_like references, multi-output dicts, pre-tagged nodes/axes/reductions: same output names; "
+         "shape/dtype/value of every output under the reference evaluator (thorough: generated code too); reflective structural "
+         "fingerprint of the input incl. bytes + writeable flag of wrapped data unchanged; idempotence; tags-only; identity "
+         "returned; and each real (input, result) pair serialised into ONE heap by object identity and checked by the Lean model's "
+         "unfoldeq / sametags / dupfree / extends. Partial: Python-level mutation is monitored by snapshots, not modelled; the "
+         "concrete mpms/unify/dce node functions enter the theorem through its Preserves hypothesis (validated per instance).",
     design_ref="§5 C05", note="Graphs with duplicates are only given to deduplicate / the unchecked copy mapper first, as pytato documents.")
 
 NOT_YET = "check not built yet in this revision (see DESIGN.md §10 build order); not claimed"
